@@ -65,6 +65,11 @@ def histories(tier, rng):
         carrier.find('item').append(gens.decoy_block())
         yield {'ro': to_text(root), 'msgs': [to_text(story_append(31, [carrier])), to_text(item_insert(32, 'HD', None, [gens.new_item('hd2')])),
                                              to_text(metadata_replace(33, [E('roSlug', text='after'), E('messageID', text='88')]))]}
+    # vendor XML written with a default-namespace declaration, sent in a roStorySend and carried along by later merges
+    clip = '<clip xmlns="http://vendor/default" rate="25"><id>c1</id><track xmlns="http://vendor/other">t</track></clip>'
+    send = to_text(story_send(34, 'A', body=[p('text'), E('storyItem', E('itemID', text='ns1'), E('PLACEHOLDER'))], pre=[E('storySlug', text='with vendor xml')]))
+    yield {'ro': to_text(gens.make_ro(['A', 'B'], layout='plain')),
+           'msgs': [send.replace('<PLACEHOLDER />', clip), to_text(item_insert(35, 'A', None, [gens.new_item('after')])), to_text(story_append(36, [gens.new_story('Z9')]))]}
     n = 60 if tier == 'quick' else 600
     for h in range(n):
         sids = gens.STORY_IDS[:rng.randrange(1, 4)]
